@@ -65,6 +65,9 @@ PATHS: Dict[str, List[str]] = {
     "aug_if": ["if a > 3:", "    v += 20"],
     "tuple_if": ["if a > 3:", "    v, q3 = 120, 1"],
     "helper": ["if a > 3:", "    setv()"],
+    "straight": ["v = 120"],
+    "straight_aug": ["v += 20"],
+    "straight_tuple": ["v, q4 = 120, 2"],
     "none": [],
 }
 HELPER_DEF = ["def setv():", "    global v", "    v = 120"]
@@ -110,6 +113,8 @@ def gen_numeric(tier: str) -> Iterator[dict]:
             yield {"id": f"N:{site}:path:{'+'.join(combo)}:setup", "space": "N", "src": common.script(pre + body + render("v"), None, prologue=PRO, defs=defs), "runs": _runs(0)}
             # the mutation lives in the main loop AFTER the site: the second pass must see it
             yield {"id": f"N:{site}:path:{'+'.join(combo)}:loop-after", "space": "N", "src": common.script(pre, render("v") + body, prologue=PRO, defs=defs), "runs": _runs(3)}
+            # use, re-bind, use again in one block: the value baked for the FIRST use is the earlier one
+            yield {"id": f"N:{site}:path:{'+'.join(combo)}:use-mut-use", "space": "N", "src": common.script(pre + render("v") + body + render("v"), None, prologue=PRO, defs=defs), "runs": _runs(0)}
             yield {"id": f"N:{site}:path:{'+'.join(combo)}:loop-before", "space": "N", "src": common.script(pre, body + render("v"), prologue=PRO, defs=defs), "runs": _runs(2)}
         # the site sits in a sibling arm of the arm that re-binds v
         sib = ["if a > 5:", "    v = 120"] + ["elif a > 3:"] + common.indent(render("v")) + ["else:"] + common.indent(render("v"))
@@ -157,6 +162,7 @@ def gen_containers(tier: str) -> Iterator[dict]:
                 else:
                     defs = []
                     body = wrap(mut)
+                yield {"id": f"K:{site}:{mname}:{wname}:use-mut-use", "space": "K", "src": common.script(pre + use + body + use, None, prologue=PRO, defs=defs), "runs": _runs(0)}
                 yield {"id": f"K:{site}:{mname}:{wname}:setup", "space": "K", "src": common.script(pre + body + use, None, prologue=PRO, defs=defs), "runs": _runs(0)}
                 if wname in ("straight", "if") or tier == "thorough":
                     yield {"id": f"K:{site}:{mname}:{wname}:loop-after", "space": "K", "src": common.script(pre, use + body, prologue=PRO, defs=defs), "runs": _runs(3)[:2]}
@@ -175,11 +181,29 @@ def judge(case, tr, dev_runs, host_runs):
     return default_judge(case, tr, dev_runs, host_runs, check_lcd=True)
 
 
+def gen_underscore(tier: str) -> Iterator[dict]:
+    """The same path / container cases with names that start with an underscore (`_v`, `_w`): user names, not
+    entries of the transpiler's own environment."""
+    import re
+
+    sites = None if tier == "thorough" else {"sleep", "global_init", "condition", "len_list", "flash", "len_str"}
+    for case in itertools.chain(gen_numeric("quick"), gen_containers("quick")):
+        parts = case["id"].split(":")
+        if parts[2] not in ("path", "sibling", "in-helper") and parts[0] != "K":
+            continue
+        if sites is not None and parts[1] not in sites:
+            continue
+        src = re.sub(r"\b([vw])\b", r"_\1", case["src"])
+        yield {"id": "U" + case["id"], "space": "U", "src": src, "runs": case["runs"]}
+
+
 def generate(tier: str, only=None) -> Iterator[dict]:
     if not only or "N" in only:
         yield from gen_numeric(tier)
     if not only or "K" in only:
         yield from gen_containers(tier)
+    if not only or "U" in only:
+        yield from gen_underscore(tier)
 
 
 def main(tier: str, seed: int, only=None) -> int:
